@@ -1,0 +1,134 @@
+//! Verification hooks. Compiled only with `--cfg hpbf_verif`; the shipped crate
+//! never contains this module.
+//!
+//! H1: `HashMap`/`HashSet` stand-ins for the bytecode generator whose hasher keys
+//! come from a thread-local the test harness sets, instead of from the operating
+//! system. Like std's `RandomState`, every new container advances the key by one, so
+//! that what was compiled before on the same thread changes the keys.
+
+use std::{
+    cell::Cell,
+    collections,
+    hash::{BuildHasher, Hash},
+    ops::{Deref, DerefMut},
+};
+
+#[allow(deprecated)]
+use std::hash::SipHasher;
+
+thread_local! {
+    static KEYS: Cell<(u64, u64)> = const { Cell::new((0x0123_4567_89ab_cdef, 0x0f1e_2d3c_4b5a_6978)) };
+}
+
+/// Set the keys used by the hash containers created on this thread from now on.
+pub fn set_hash_seed(seed: u64) {
+    KEYS.with(|k| k.set((seed, seed.rotate_left(29) ^ 0x9e37_79b9_7f4a_7c15)));
+}
+
+/// Keyed SipHash state, one fresh key per container.
+#[derive(Clone)]
+pub struct SeededState(u64, u64);
+
+impl SeededState {
+    fn next() -> Self {
+        KEYS.with(|k| {
+            let (a, b) = k.get();
+            k.set((a.wrapping_add(1), b));
+            SeededState(a, b)
+        })
+    }
+}
+
+#[allow(deprecated)]
+impl BuildHasher for SeededState {
+    type Hasher = SipHasher;
+
+    fn build_hasher(&self) -> SipHasher {
+        SipHasher::new_with_keys(self.0, self.1)
+    }
+}
+
+type InnerHashMap<K, V> = collections::HashMap<K, V, SeededState>;
+type InnerHashSet<K> = collections::HashSet<K, SeededState>;
+
+pub struct HashMap<K: Eq + Hash, V>(InnerHashMap<K, V>);
+
+pub struct HashSet<K: Eq + Hash>(InnerHashSet<K>);
+
+impl<K: Eq + Hash, V> HashMap<K, V> {
+    #[allow(clippy::new_without_default)]
+    pub fn new() -> Self {
+        Self(InnerHashMap::with_hasher(SeededState::next()))
+    }
+}
+
+impl<K: Eq + Hash> HashSet<K> {
+    #[allow(clippy::new_without_default)]
+    pub fn new() -> Self {
+        Self(InnerHashSet::with_hasher(SeededState::next()))
+    }
+}
+
+impl<K: Eq + Hash, V> Deref for HashMap<K, V> {
+    type Target = InnerHashMap<K, V>;
+
+    fn deref(&self) -> &Self::Target {
+        &self.0
+    }
+}
+
+impl<K: Eq + Hash, V> DerefMut for HashMap<K, V> {
+    fn deref_mut(&mut self) -> &mut Self::Target {
+        &mut self.0
+    }
+}
+
+impl<K: Eq + Hash> Deref for HashSet<K> {
+    type Target = InnerHashSet<K>;
+
+    fn deref(&self) -> &Self::Target {
+        &self.0
+    }
+}
+
+impl<K: Eq + Hash> DerefMut for HashSet<K> {
+    fn deref_mut(&mut self) -> &mut Self::Target {
+        &mut self.0
+    }
+}
+
+impl<K: Eq + Hash> IntoIterator for HashSet<K> {
+    type Item = K;
+    type IntoIter = collections::hash_set::IntoIter<K>;
+
+    fn into_iter(self) -> Self::IntoIter {
+        self.0.into_iter()
+    }
+}
+
+impl<'a, K: Eq + Hash> IntoIterator for &'a HashSet<K> {
+    type Item = &'a K;
+    type IntoIter = collections::hash_set::Iter<'a, K>;
+
+    fn into_iter(self) -> Self::IntoIter {
+        self.0.iter()
+    }
+}
+
+impl<K: Eq + Hash, V> IntoIterator for HashMap<K, V> {
+    type Item = (K, V);
+    type IntoIter = collections::hash_map::IntoIter<K, V>;
+
+    fn into_iter(self) -> Self::IntoIter {
+        self.0.into_iter()
+    }
+}
+
+impl<'a, K: Eq + Hash, V> IntoIterator for &'a HashMap<K, V> {
+    type Item = (&'a K, &'a V);
+    type IntoIter = collections::hash_map::Iter<'a, K, V>;
+
+    fn into_iter(self) -> Self::IntoIter {
+        self.0.iter()
+    }
+}
